@@ -77,4 +77,18 @@ theorem gen_store_run_pinned :
     Gen.storeRunRanges = ["st.subscriptions"] ∧ Gen.storeRunCloses.length = 2 ∧ Gen.storeRunKeysDistinct = true :=
   ⟨rfl, rfl, rfl, rfl⟩
 
+/-- non-vacuity: a commit order of four writes (one refused: NaN); a write acknowledged at position 1 is visible at every later
+    position, and the states along the order differ -/
+example :
+    let commits : List WOp := [
+      .ep [97] [] [{ type := tombstoneT, time := 3 }, { type := nodeTypeT, text := [100], time := 3 }],
+      .np [97] [{ type := [1], time := 5, value := 4607182418800017408 }],
+      .np [97] [{ type := [1], time := 4, value := 9221120237041090560 }],
+      .np [97] [{ type := [1], time := 7, value := 4611686018427387904 }]]
+    Inv ({} : St) ∧ commits[1]? = some (.np [97] [{ type := [1], time := 5, value := 4607182418800017408 }]) ∧
+      (∃ st', nodePoints (stateAt {} commits 1) [97] [{ type := [1], time := 5, value := 4607182418800017408 }] = .ok st') ∧
+      stateAt {} commits 2 = stateAt {} commits 3 ∧ stateAt {} commits 3 ≠ stateAt {} commits 4 := by
+  intro commits
+  refine ⟨c03_reachable [], rfl, ⟨stateAt {} commits 2, by decide +kernel⟩, by decide +kernel, by decide +kernel⟩
+
 end Siot.Conc
